@@ -425,3 +425,178 @@ def parity_ecef(ctx):
                        'the hemisphere sign flip)' % (names[k], 'negated latitude' if k == 0
                                                       else 'same ' + names[k]))
     ctx.floor('PARITY-ECEF', n, 6, 'mirror identities')
+
+
+# ------------------------------------------------------------ OLSON (ecef_to_lla accuracy)
+class _OH(RotHooks):
+    """northern-hemisphere sample of ecef_to_lla under one outcome of the branch comparison;
+    records the argument of the inverse trigonometric call that starts the refinement."""
+
+    def __init__(self, mask, z_value=None):
+        self.mask, self.cut, self.zv = mask, {}, z_value
+
+    def compare(self, ev, node, a, b):
+        A = ev.A
+        try:
+            ra, rb = ev.rat(a), ev.rat(b)
+        except Exception:
+            return None
+        if A.is_const(ra) and A.is_const(rb):
+            return None
+        if A.is_const(rb) and A.const_of(rb) == 0:
+            return isinstance(node.ops[0], (ast.Gt, ast.GtE))        # z > 0
+        return self.mask
+
+    def call(self, ev, q, node, args, kwargs, env):
+        if q == 'builtins.abs':
+            return args[0]                                            # z > 0
+        if q in ('numpy.arcsin', 'numpy.arccos'):
+            self.cut[q] = args[0][0] if isinstance(args[0], list) else args[0]
+        return RotHooks.call(self, ev, q, node, args, kwargs, env)
+
+
+def olson_rules(ctx):
+    """ecef_to_lla(lla_to_ecef(lat, lon, alt)) == (lat, lon, alt) to the accuracy of a Newton
+    iteration started from a third-order-accurate guess:
+
+    OLSON-INIT    the closed-form first approximation of sin(lat) / cos(lat) is exact through
+                  second order in the squared eccentricity (power series in earth.E2 with
+                  polynomial coefficients, for all lat and alt)
+    OLSON-NEWTON  the refinement is a Newton step of the exact geometry: exact latitude and
+                  altitude are a fixed point and a first-order error of the guess is cancelled
+                  (d lat_out / d lat_guess = 0, d alt_out / d lat_guess = 0 at the solution)
+    OLSON-LON     longitude = atan2(y, x) in degrees
+    Together: guess error O(E2^3) ~ 1e-7 rad -> result error O(E2^6); an edit to a series
+    constant or to the correction formula degrades this to centimetres or metres, below what
+    the tests resolve."""
+    from ..nf import EpsAlg
+    ctx.rule('OLSON-INIT', 'first approximation of sin/cos(lat) in ecef_to_lla is exact through '
+             'E2^2 for every latitude and altitude (series in E2 over lla_to_ecef)')
+    ctx.rule('OLSON-NEWTON', 'refinement step of ecef_to_lla: exact (lat, alt) is a fixed point '
+             'and first-order errors of the guess cancel')
+    ctx.rule('OLSON-LON', 'longitude = rad2deg(arctan2(y, x))')
+    repo = ctx.repo
+    f = repo.function('transform.ecef_to_lla')
+    g = repo.function('transform.lla_to_ecef')
+    ctx.touch(f)
+    ctx.touch(g)
+    vec = lambda xs, sample=False: SArray((len(xs),), {(i,): x for i, x in enumerate(xs)},
+                                          None, sample)
+    for mask in (True, False):
+        q = 'numpy.arcsin' if mask else 'numpy.arccos'
+        fn = q.split('.')[-1]
+        # ---------------- OLSON-INIT: series in E2 up to order 2
+        A = EpsAlg('earth.E2', 2)
+        lat = A.sym('lat')
+        Hh = A.sym('H', 1.0)                      # H = A + alt > 0
+        alt = A.sub(Hh, A.sym('earth.A'))
+        try:
+            fw = SymEval(repo, A).call_function(g, [vec([lat, A.const(0), alt])])
+        except (Unsupported, ValueError) as e:
+            raise AnalysisError('lla_to_ecef has no series in E2: %s' % e)
+        phi = A.mul(A.sym(A.D2R), lat)
+        sphi, cphi = A.sin(phi), A.cos(phi)
+        A.nonneg = set(A.atoms_of(sphi)) | set(A.atoms_of(cphi))       # 0 < lat < 90
+        h = _OH(mask)
+        try:
+            SymEval(repo, A, hooks=h).call_function(
+                f, [vec([fw.get((0,)), fw.get((1,)), fw.get((2,))], True)])
+        except (Unsupported, ValueError, ZeroDivisionError):
+            pass                 # only the part up to the inverse trigonometric call is needed
+        ctx.need(q in h.cut, 'ecef_to_lla: no %s call reached under comparison outcome %s'
+                 % (fn, mask))
+        try:
+            d = A.sub(ev_rat(A, h.cut[q]), sphi if mask else cphi)
+            ok = A.is_zero(d)
+        except (ValueError, Unsupported) as e:
+            raise AnalysisError('OLSON-INIT: series comparison failed: %s' % e)
+        ctx.ob('OLSON-INIT', ok, None,
+               'argument of %s equals %s(lat) + O(E2^3) on points of lla_to_ecef'
+               % (fn, 'sin' if mask else 'cos'), f=f, key='init-' + fn,
+               why='the first approximation handed to %s deviates from %s(lat) already at '
+                   'second order in E2 (a constant of the series is wrong): the starting error '
+                   'grows from ~1e-7 to ~1e-5..1e-3 rad and the single refinement step leaves '
+                   'centimetres to metres' % (fn, 'sin' if mask else 'cos'))
+        # ---------------- OLSON-NEWTON: exact algebra, refinement stage cut at the guess
+        A = Alg()
+        lat, alt = A.sym('lat'), A.sym('alt')
+        fw = SymEval(repo, A).call_function(g, [vec([lat, A.const(0), alt])])
+        h = _OH(mask)
+        ev = SymEval(repo, A, hooks=h, names_as_atoms=True)
+        W, Z, lam = A.sym('W', 1.0), A.sym('Z', 1.0), A.sym('lam')
+        try:
+            out = ev.call_function(f, [vec([A.mul(W, A.cos(lam)), A.mul(W, A.sin(lam)), Z], True)])
+        except Unsupported as e:
+            raise AnalysisError('ecef_to_lla not analysable: %s' % e)
+        ctx.need(isinstance(out, SArray) and out.shape == (3,), 'ecef_to_lla result shape')
+        cutv = ev_rat(A, h.cut.get(q))
+        cut = sorted(A.atoms_of(cutv))
+        ctx.need(len(cut) == 1 and A.eq(cutv, A.sym(cut[0])),
+                 'ecef_to_lla: argument of %s is not a named intermediate' % fn)
+        cut = cut[0]
+        L = A.sym('L')
+        sL, cL = A.sin(L), A.cos(L)
+        A.nonneg = set(A.atoms_of(sL)) | set(A.atoms_of(cL))
+        phi = A.mul(A.sym(A.D2R), lat)
+        exact = {}
+        for k, nm in ((0, 'latitude'), (2, 'altitude')):
+            e = ev.expand(out.get((k,)), stop={cut})
+            mp = {cut: sL if mask else cL}
+            for a_ in A.atoms_of(e):
+                if a_.startswith(fn + '('):
+                    mp[a_] = L
+            e = A.subst(e, mp)
+            e = A.subst(e, {'W': fw.get((0,)), 'Z': fw.get((2,))})
+            if k == 0:
+                e = A.mul(e, A.sym(A.D2R))
+            exact[nm] = e
+        at = {'L': phi}
+        want = {'latitude': phi, 'altitude': alt}
+        for nm, e in exact.items():
+            try:
+                fix = A.is_zero(A.sub(A.subst(e, at), want[nm]))
+                d1 = A.is_zero(A.subst(A.diff(e, 'L'), at))
+            except ValueError as e2:
+                raise AnalysisError('OLSON-NEWTON: %s' % e2)
+            ctx.ob('OLSON-NEWTON', fix, None,
+                   '%s: an exact guess is returned unchanged (%s branch)' % (nm, fn), f=f,
+                   key='fixed-%s-%s' % (nm, fn),
+                   why='with the exact latitude as the guess the %s branch of ecef_to_lla does '
+                       'not return the exact %s of the point lla_to_ecef(lat, lon, alt)'
+                       % (fn, nm))
+            ctx.ob('OLSON-NEWTON', d1, None,
+                   '%s: first-order error of the guess is cancelled (%s branch)' % (nm, fn),
+                   f=f, key='newton-%s-%s' % (nm, fn),
+                   why='d(%s)/d(guess) is not zero at the solution (%s branch): the correction '
+                       'is not the Newton step of the ellipsoid geometry (wrong radius in the '
+                       'denominator / wrong residual), so the ~1e-7 rad error of the guess is '
+                       'only partly removed' % (nm, fn))
+        try:
+            d2 = A.is_zero(A.subst(A.diff(A.diff(exact['altitude'], 'L'), 'L'), at))
+        except ValueError as e2:
+            raise AnalysisError('OLSON-NEWTON: %s' % e2)
+        ctx.ob('OLSON-NEWTON', d2, None,
+               'altitude: second-order error of the guess is cancelled as well (%s branch)' % fn,
+               f=f, key='newton2-altitude-' + fn,
+               why='d2(altitude)/d(guess)^2 is not zero at the solution (%s branch): the '
+                   'second-order height correction (half the tangential miss times the '
+                   'latitude correction) has the wrong coefficient' % fn)
+        lon = A.mul(ev.expand(out.get((1,))), A.sym(A.D2R))
+        okl = A.eq(lon, lam) if False else None
+        fa = getattr(A, 'func_arg', {})
+        okl = False
+        if len(lon.n.t) == 1:
+            (m, c), = lon.n.t.items()
+            if c == 1 and len(m) == 1 and m[0][0] in fa and fa[m[0][0]][0] == 'arctan2':
+                Y, X = fa[m[0][0]][1]
+                okl = A.eq(Y, A.mul(W, A.sin(lam))) and A.eq(X, A.mul(W, A.cos(lam)))
+        ctx.ob('OLSON-LON', okl, None, 'longitude = rad2deg(arctan2(y, x)) (%s branch)' % fn, f=f,
+               key='lon-' + fn, why='longitude is not rad2deg(arctan2(y, x)) of the input')
+
+
+def ev_rat(A, v):
+    if isinstance(v, list):
+        v = v[0]
+    if not isinstance(v, Rat):
+        raise AnalysisError('scalar expected, got %r' % (v,))
+    return v
